@@ -39,8 +39,10 @@ def plan(tier, seed):
   return {
       "tasks": tasks,
       "rule": "every (d, r) with |r|+2 < d <= %d, |r| <= %d, both signs, "
-              "paddings {0,3}; 5 gapped spectra x 3 bases x p in {2,4,6,8} x "
-              "2 ridge settings; every gradient shape over dims {3,5,6} of "
+              "paddings {0,3}; 3 gapped spectra x scales {1, 2^-6, 16} x 3 "
+              "bases x p in {2,4,6,8} x 3 ridge settings (absolute, relative "
+              "1e-12, relative 1e-2 with the ridge recovered from the "
+              "returned constant); every gradient shape over dims {3,5,6} of "
               "rank 1..3 with every has_zeros pattern; non-trivial = all" %
               (D, R),
       "bounds": {"D": D, "R": R},
@@ -138,8 +140,14 @@ def run_root(acc, d, r, seed):
       return ds._low_rank_root(mat, p, compression_rank=r, ridge_epsilon=eps,
                                relative_matrix_epsilon=rel, padding_start=d)
     fn = jax.jit(call, static_argnums=(2, 3))
-    for si, lam in enumerate(spectra(d, r)):
+    for si, lam0 in enumerate(spectra(d, r)):
+     # scale 1 and scales with the largest eigenvalue well below / above 1:
+     # with the relative ridge the result must scale as scale^(-1/p)
+     for scale in (1.0, 2.0**-6, 16.0):
+      lam = lam0 * scale
       for bname, q in bases.items():
+        if scale != 1.0 and bname == "H":
+          continue
         a = (q * lam) @ q.T
         a = (a + a.T) / 2
         full = np.zeros((n, n))
@@ -150,16 +158,26 @@ def run_root(acc, d, r, seed):
           full[d:, :d] = 0.5
         for p in (2, 4, 6, 8):
           # relative ridge: the routine scales epsilon by a power-iteration
-          # estimate it does not report (observed 0.4% low on slowly
-          # separating spectra); epsilon = 1e-12 keeps the denoted matrix
-          # insensitive to that estimate (effect <= 1e-10) while the
-          # relative code path is still exercised.
-          for eps, rel in ((1e-12, True), (1e-3, False)):
+          # estimate it does not report (a Rayleigh quotient: never above the
+          # largest eigenvalue, observed 0.4% low on slowly separating
+          # spectra).  epsilon = 1e-12 keeps the denoted matrix insensitive
+          # to that estimate (effect <= 1e-10).  With epsilon = 1e-2 the one
+          # unknown scalar (the ridge actually added) is recovered from the
+          # returned constant by bisection, must lie in [0.5, 1] * epsilon *
+          # lambda_max (the estimate stops early when the two leading
+          # eigenvalues are close: 6% low observed for a ratio of 0.9), and
+          # the whole denoted matrix must then be the exact root for that
+          # ridge.
+          settings = ((1e-12, True, False), (1e-3, False, False),
+                      (1e-2, True, True))
+          for eps, rel, fit in settings:
+            if scale != 1.0 and eps == 1e-12:
+              continue
             acc.states += 1
             acc.nontrivial += 1
             acc.transitions += 1
-            sig = "C10|root|d%d|r%d|pad%d|s%d|%s|p%d|e%g" % (d, r, pad, si,
-                                                             bname, p, eps)
+            sig = "C10|root|d%d|r%d|pad%d|s%d|x%g|%s|p%d|e%g" % (
+                d, r, pad, si, scale, bname, p, eps)
             case = {"d": d, "r": r, "padding": pad, "spectrum": lam.tolist(),
                     "basis": bname, "p": p, "eps": eps, "relative": rel}
             try:
@@ -174,15 +192,40 @@ def run_root(acc, d, r, seed):
             ie = np.asarray(ie)
             c = float(c)
             dense = c * (np.eye(d) - vecs @ vecs.T) + (vecs * ie) @ vecs.T
-            ridge = eps * (lam[0] if rel else 1.0)
-            w, u = np.linalg.eigh(a + ridge * np.eye(d))
-            rootv = w ** (-1.0 / p)
+            w0, u = np.linalg.eigh(a)
             # w ascending: retained = largest k (r>0) or smallest k (r<0)
             keep = np.zeros(d, bool)
             if r > 0:
               keep[-k:] = True
             else:
               keep[:k] = True
+
+            def const_of(rho):
+              return float(np.mean((w0[~keep] + rho) ** (-1.0 / p)))
+            if fit:
+              lo, hi = 0.5 * eps * lam[0], eps * lam[0] * (1 + 1e-9)
+              if not const_of(hi) * (1 - 1e-9) <= c <= \
+                  const_of(lo) * (1 + 1e-9):
+                acc.outcome("viol_ridge_bracket")
+                acc.violation(
+                    sig + "|ridge", "constant %.9g of the packed root is not "
+                    "the mean complement root for any ridge in [0.5,1] * "
+                    "epsilon * lambda_max (admissible constants [%.9g, "
+                    "%.9g])" % (c, const_of(hi), const_of(lo)), case)
+                continue
+              for _ in range(200):
+                mid = (lo + hi) / 2
+                if const_of(mid) > c:
+                  lo = mid
+                else:
+                  hi = mid
+              ridge = (lo + hi) / 2
+              acc.extra["min_ridge_ratio"] = min(
+                  acc.extra.get("min_ridge_ratio", 1.0),
+                  ridge / (eps * lam[0]))
+            else:
+              ridge = eps * (lam[0] if rel else 1.0)
+            rootv = (w0 + ridge) ** (-1.0 / p)
             vals = np.where(keep, rootv, rootv[~keep].mean())
             want = (u * vals) @ u.T
             err = np.max(np.abs(dense - want)) / np.max(np.abs(want))
@@ -197,7 +240,7 @@ def run_root(acc, d, r, seed):
               acc.violation(sig + "|pad", "eigenvectors leak into padding",
                             case)
             else:
-              acc.outcome("root_ok")
+              acc.outcome("root_fitted_ridge_ok" if fit else "root_ok")
             acc.sample(dict(case, rel_err=float(err)))
 
 
